@@ -65,8 +65,12 @@ def _span_record(rq):
     )
 
 
-def _fm_record(m, o, ks):
+def _fm_record(m, o, ks, ps=()):
     return dict(
+        offsets=[int(x) for x in m.offsets], len=len(m), useful=bool(m.useful), complete=bool(m.complete),
+        abs=[_try(lambda: int(m.absolute_position(p))) for p in ps],
+        rel=[_try(lambda: int(m.relative_position(p))) for p in ps],
+        zeroed=_try(lambda: m.zeroed(), _fmd),
         mul=[_try(lambda: m * k, _fmd) for k in ks],
         div=[_try(lambda: m / k, _fmd) for k in ks],
         add=_try(lambda: m + o, _fmd),
@@ -109,8 +113,9 @@ def ops_correspondence(ctx, out, rng):
         except AssertionError:
             continue
         ks = [1, 2, 3, rng.choice([4, 5, 6, 9, -1, -3])]
-        reqs.append(("fmops", dict(m=dict(spans=spans_, pl=pl), o=dict(spans=other, pl=opl), ks=ks)))
-        reals.append(_fm_record(m, o, ks))
+        ps = sorted({-1, 0, 1, rng.randint(0, pl + 2), pl})
+        reqs.append(("fmops", dict(m=dict(spans=spans_, pl=pl), o=dict(spans=other, pl=opl), ks=ks, ps=ps)))
+        reals.append(_fm_record(m, o, ks, ps))
     for (cmd, rq), real, model in zip(reqs, reals, ctx.driver.batch(reqs)):
         out["evaluations"] += 1
         bump(out, "ops_cmd", cmd)
@@ -316,6 +321,41 @@ def check_fm_ops(out, spans, pl, other, cover_of):
                      list(range(lo, hi)), cover_of(c))
         except CATCH as ex:
             fail("get_covering_span() raised", "fmap-covering-span-raise", [lo, hi], type(ex).__name__)
+        # bookkeeping of __post_init__, zeroed, absolute / relative position (wave 2)
+        lens = [s[0] if len(s) == 1 else s[1] - s[0] for s in spans]
+        offs = [sum(lens[:i]) for i in range(len(lens))]
+        book = [[int(x) for x in m.offsets], len(m), bool(m.useful), bool(m.complete)]
+        want = [offs, sum(lens), True, all(len(s) > 1 for s in spans)]
+        if book != want:
+            fail("offsets / len / useful / complete are not the running lengths / whether real (only real) spans exist",
+                 "fmap-post-init", want, book)
+        try:
+            z = m.zeroed()
+            want = [None if p is None else p - lo for p in cov]
+            got = [cover_of(z), int(z.parent_length), int(z.start), int(z.end)]
+            if got != [want, hi - lo, 0, hi - lo]:
+                fail("zeroed() is not the same map with every parent coordinate moved down by its start (parent = covering span)",
+                     "fmap-zeroed", [want, hi - lo, 0, hi - lo], got)
+            if cover_of(m) != cov:
+                fail("zeroed() modified the map it was called on", "fmap-zeroed-mutates", cov, cover_of(m))
+        except CATCH as ex:
+            fail("zeroed() raised", "fmap-zeroed-raise", None, type(ex).__name__)
+        for p in (0, 1, pl):
+            try:
+                r_, a_ = int(m.relative_position(p)), int(m.absolute_position(p))
+            except CATCH as ex:
+                fail("relative_position / absolute_position raised for a position >= 0", "fmap-position-raise", None, type(ex).__name__, p=p)
+                continue
+            want_a = p if sum(lens) == pl else lo + p
+            if r_ != p - lo or a_ != want_a:
+                fail("relative_position(p) is not p - start / absolute_position(p) is not start + p (p on a map as long as its parent)",
+                     "fmap-position", [p - lo, want_a], [r_, a_], p=p)
+        for f_ in (m.relative_position, m.absolute_position):
+            try:
+                f_(-1)
+                fail("a negative position is not refused", "fmap-position-negative", "ValueError", "returned")
+            except ValueError:
+                pass
 
 
 # --------------------------------------------------------------------------
